@@ -118,6 +118,9 @@ func jobC13(c *rt.Ctx) {
 					c.Violation("C13 verify modifies input", "Verify/VerifyWithOptions modified a caller-supplied slice (or its surroundings)", d)
 				}
 				c.Distinct(fmt.Sprintf("v %d %d %d", kl, sl, ml), kl == 32 && sl != 64)
+				if c.WantSample() && kl == 32 && sl == 63 {
+					c.Sample(map[string]interface{}{"api": "Verify / VerifyWithOptions", "key_len": kl, "sig_len": sl, "msg_len": ml, "contract": want, "observed": cl, "inputs_intact": k.intact() && s.intact() && m.intact()})
+				}
 			}
 		}
 	}
@@ -290,6 +293,9 @@ func jobC13(c *rt.Ctx) {
 						}
 						c.Class("batch-entries")
 						c.Distinct(fmt.Sprintf("be %v %d %d %d %d", vs, n, pos, ki, two), true)
+						if c.WantSample() && n == 65 {
+							c.Sample(map[string]interface{}{"api": "VerifyBatch", "n": n, "malformed_kind": kd.name, "position": pos, "second_malformed": two == 1, "variant": vs.String()})
+						}
 						for _, zip := range []bool{false, true} {
 							all, valid, err, pv := implBatch(entries, vs, zip, rt.NewRng(c.Seed, "c13b"))
 							c.Step(1)
